@@ -72,10 +72,6 @@ impl PackageExports {
             }
         };
         for (function, bounds) in hir_interface.fn_bounds.iter() {
-            // methods of impls are recorded as `impl#<n>::name`: only functions are called by name
-            if function.starts_with("impl#") {
-                continue;
-            }
             env.fn_bounds.insert(
                 function.clone(),
                 bounds
